@@ -320,6 +320,7 @@ func runRetryCase(c retryCase, long time.Duration) retryResult {
 	job := &rjob{script: c.script, opts: jopts, sig: make(chan struct{}, 1), long: long}
 	key := quartz.NewJobKey("main")
 	jd := quartz.NewJobDetailWithOptions(job, key, jopts)
+	job.opts = jd.Options() // the job detail keeps its own copy of the options
 	exp1, end1 := retryExpect(c.maxRetries, c.script, c.cancelAt)
 	if end1 == "cancelled" {
 		job.longAt = c.cancelAt
